@@ -22,7 +22,8 @@ Verdict ==
    \* every tensor of both models' subgraph has an entry (the interpreter may add entries for its own temporaries,
    \* e.g. kernel scratch buffers: the property does not forbid them)
    complete |-> (S(Cur.ref) \cap S(Cur.tgt)) \subseteq (S(Cur.gin) \cup S(Cur.gout) \cup S(Cur.gconst) \cup S(Cur.ginter)),
-   filed    |-> S(Cur.gin) = S(Cur.ins) /\ S(Cur.gout) = S(Cur.outs) /\ S(Cur.gconst) = S(Cur.consts),
+   \* (a signature input that is also an output is filed once, under inputs)
+   filed    |-> S(Cur.gin) = S(Cur.ins) /\ S(Cur.gout) = S(Cur.outs) \ S(Cur.ins) /\ S(Cur.gconst) = S(Cur.consts),
    values   |-> \A k \in 1..Len(Cur.valok) : Cur.valok[k],
    selfzero |-> Cur.self => \A k \in 1..Len(Cur.iszero) : Cur.iszero[k]]
 
